@@ -56,6 +56,10 @@ type image struct {
 	injected bool  // an injected write was acknowledged during the step in flight, before this image
 	rewrites int   // rewrites / snapshots started so far
 	stuck    bool  // stateMutationInProgress was set when the step began
+	prevSnap int   // state index the last completed snapshot encodes (-1 none), its time
+	prevMs   int64
+	curSnap  int // state index of the snapshot being written (-1 none), its time
+	curMs    int64
 }
 
 func readTree(dir string) map[string][]byte {
@@ -223,6 +227,10 @@ type pRun struct {
 	rewrites    int
 	stuck       bool
 	outerPoint  string
+	prevSnap    int
+	prevMs      int64
+	curSnap     int
+	curMs       int64
 }
 
 func (p *pRun) conn(i int) *net.Conn {
@@ -245,7 +253,7 @@ func (p *pRun) snap(point string) {
 		files[sub+"/"+n] = b
 	}
 	im := &image{point: point, op: p.curOp, now: p.in.Clock.Ms(), files: files, lo: p.acked, hi: -1, copyIdx: p.copyIdx, copyNow: p.copyNow, lastSave: p.lastSv,
-		injected: p.injAcked, rewrites: p.rewrites, stuck: p.stuck}
+		injected: p.injAcked, rewrites: p.rewrites, stuck: p.stuck, prevSnap: p.prevSnap, prevMs: p.prevMs, curSnap: p.curSnap, curMs: p.curMs}
 	p.images = append(p.images, im)
 	if len(p.pending) > 0 {
 		p.pending[len(p.pending)-1] = append(p.pending[len(p.pending)-1], im)
@@ -281,6 +289,12 @@ func (p *pRun) hook(name string) {
 	}
 	if name == "aof.preamble.state.copied" || name == "snapshot.take.state.copied" {
 		p.pendCopyIdx, p.pendCopyNow = p.acked, p.in.Clock.Ms()
+	}
+	if name == "snapshot.take.state.copied" {
+		p.curSnap, p.curMs = p.acked, p.in.Clock.Ms()
+	}
+	if name == "snapshot.take.end" {
+		p.prevSnap, p.prevMs, p.curSnap = p.curSnap, p.curMs, -1
 	}
 	if name == "aof.preamble.write.done" || name == "snapshot.take.state.written" {
 		p.copyIdx, p.copyNow = p.pendCopyIdx, p.pendCopyNow
@@ -325,7 +339,17 @@ func (p *pRun) emit(id string, im *image, files map[string][]byte, point string)
 		fmt.Fprintf(&sb, " L %s P %s Q %s", xfile(lg, lok), xfile(pr, pok), decodeState(pr, false))
 	} else {
 		mf, mok := files["snapshots/manifest.bin"]
-		fmt.Fprintf(&sb, " F %s", xfile(mf, mok))
+		mdec, mms := 0, int64(0)
+		if mok {
+			var man struct {
+				LatestSnapshotMilliseconds int64
+				LatestSnapshotHash         [16]byte
+			}
+			if json.Unmarshal(mf, &man) == nil {
+				mdec, mms = 1, man.LatestSnapshotMilliseconds
+			}
+		}
+		fmt.Fprintf(&sb, " F %s %d %d", xfile(mf, mok), mdec, mms)
 		// every snapshot directory: name, state file bytes decoded
 		var names []string
 		for n := range files {
@@ -364,9 +388,28 @@ func (p *pRun) emit(id string, im *image, files map[string][]byte, point string)
 	if hi < 0 {
 		hi = len(p.states) - 1
 	}
-	fmt.Fprintf(&sb, " A %d N %d", im.lastSave, hi-im.lo+1)
-	for k := im.lo; k <= hi; k++ {
-		fmt.Fprintf(&sb, " S %s", p.states[k])
+	if p.seq.Mode == "snap" {
+		// admissible after a restart from snapshots: the last completed snapshot (or nothing), or the one being written
+		idx, ms := []int{0}, []int64{0}
+		if im.prevSnap >= 0 {
+			idx, ms = []int{im.prevSnap}, []int64{im.prevMs}
+		}
+		if im.curSnap >= 0 {
+			idx, ms = append(idx, im.curSnap), append(ms, im.curMs)
+		}
+		fmt.Fprintf(&sb, " A %d K %d", im.lastSave, len(ms))
+		for _, m := range ms {
+			fmt.Fprintf(&sb, " %d", m)
+		}
+		fmt.Fprintf(&sb, " N %d", len(idx))
+		for _, k := range idx {
+			fmt.Fprintf(&sb, " S %s", p.states[k])
+		}
+	} else {
+		fmt.Fprintf(&sb, " A %d K 0 N %d", im.lastSave, hi-im.lo+1)
+		for k := im.lo; k <= hi; k++ {
+			fmt.Fprintf(&sb, " S %s", p.states[k])
+		}
 	}
 	fmt.Fprintf(&sb, " R %s %d", kind, ls)
 	if kind == "ok" {
@@ -403,7 +446,7 @@ func runPSeq(w *bufio.Writer, seqW *bufio.Writer, s PSeq) error {
 		return err
 	}
 	defer in.S.ShutDown()
-	p := &pRun{w: w, seq: s, in: in, dir: dir, copyIdx: -1}
+	p := &pRun{w: w, seq: s, in: in, dir: dir, copyIdx: -1, prevSnap: -1, curSnap: -1}
 	d0, err := in.Dump()
 	if err != nil {
 		return err
@@ -423,7 +466,7 @@ func runPSeq(w *bufio.Writer, seqW *bufio.Writer, s PSeq) error {
 		cmd := UnhexCmd(op.Cmd)
 		p.curOp, p.injDone = i, false // injAcked stays set: a write erased by a rewrite stays lost
 		c := p.conn(op.Conn)
-		engineOp := cmd[0] == "@rewrite" || cmd[0] == "@snapshot"
+		engineOp := cmd[0] == "@rewrite" || cmd[0] == "@snapshot" || cmd[0] == "@snapshot-blocked"
 		p.stuck = in.S.VerifSnapshot().StateMutationInProgress
 		if engineOp && p.stuck && !s.NoGuard {
 			// a failed write left stateMutationInProgress set (the state copy would spin for ever):
@@ -453,6 +496,13 @@ func runPSeq(w *bufio.Writer, seqW *bufio.Writer, s PSeq) error {
 			r = execFn(in, func() error { return in.S.VerifRewriteAOF() })
 		case "@snapshot":
 			r = execFn(in, func() error { return in.S.VerifTakeSnapshotSync() })
+		case "@snapshot-blocked":
+			// the snapshot directory cannot be created: a regular file sits at its path
+			blocker := filepath.Join(dir, "snapshots", fmt.Sprint(in.Clock.Ms()))
+			os.MkdirAll(filepath.Dir(blocker), 0o755)
+			os.WriteFile(blocker, []byte("x"), 0o644)
+			r = execFn(in, func() error { return in.S.VerifTakeSnapshotSync() })
+			os.Remove(blocker)
 		default:
 			// ordinary commands also go through the transition printer, so the model is compared on them
 			line, res, e := in.Transition(fmt.Sprintf("%s.%d", s.ID, i), c, cmd)
@@ -580,9 +630,9 @@ func (p *pRun) redurable(s PSeq) {
 	for n, b := range sub {
 		files2["aof/"+n] = b
 	}
-	q := &pRun{w: p.w, seq: s, states: []string{d}}
+	q := &pRun{w: p.w, seq: s, states: []string{d}, prevSnap: -1, curSnap: -1}
 	q.seq.RestoreAdv = 0
-	im := &image{point: "redurable", op: last.op, now: last.now, files: files2, lo: 0, hi: 0, copyIdx: -1}
+	im := &image{point: "redurable", op: last.op, now: last.now, files: files2, lo: 0, hi: 0, copyIdx: -1, prevSnap: -1, curSnap: -1}
 	q.emit(fmt.Sprintf("%s.%d.redurable", s.ID, last.op), im, files2, "redurable")
 }
 
